@@ -74,6 +74,26 @@ class FaultHook(object):
         return model.run_op(name, args, impl)
 
 
+class PathFaultHook(object):
+    """every system call ``opname`` whose path starts with ``prefix`` fails with ``errno_`` (a read-only /
+    full / permission-less directory)"""
+
+    def __init__(self, opname, prefix, errno_):
+        self.opname, self.prefix, self.errno_ = opname, prefix, errno_
+        self.injected = []
+
+    def __call__(self, model, name, args, impl):
+        path = args[0] if args and isinstance(args[0], str) else None
+        if name == 'rename' and len(args) > 1:
+            path = args[1]
+        if name == self.opname and path is not None and path.startswith(self.prefix):
+            self.injected.append((model.nops, name, self.errno_))
+            model.nops += 1
+            model.oplog.append((name, path, 'FAULT', self.errno_))
+            raise oserr(self.errno_, path)
+        return model.run_op(name, args, impl)
+
+
 def run_model(world, steps, hook=None, uid=UID, model=None):
     """-> (model, results); a step killed by Crash yields {'crashed': True} and ends the run"""
     m = model if model is not None else W.build_model(world, uid=uid)
